@@ -1,26 +1,29 @@
 (** * Model of the API glue of [shexer/shaper.py] (property C18): call histories.
 
-    The extraction pipeline itself (tracker, profiler, shexing, serialisers) is
-    NOT modelled here: its stages are [Section] variables.  What is modelled,
-    AS IT IS in /repo, is everything that lets one call influence another:
+    STATE OF THIS FILE: the code AFTER the four repairs of notes/proposed_fixes/
+    (C18-ctor-dict-copy, C18-shacl-dict-copy, C18-threshold-memo, C18-examples-once).
 
-    - the caller's namespaces dictionary is an OBJECT: [Shaper.__init__] keeps a
-      reference ([self._namespaces_dict = namespaces_dict]) and writes the shapes
-      namespace into it ([_add_shapes_namespaces_to_namespaces_dict]); the rdflib
-      readers write the parsed graph's prefixes into it during the first
-      tracker / profiler pass ([_integrate_namespaces_from_parsed_graph]);
-      [ShaclSerializer._add_shacl_namespace] writes the SHACL namespace into it.
-      A store of dictionary objects models this; two Shapers may hold the same
-      index (the caller reuses the dict);
+    The extraction pipeline itself (tracker, profiler, shexing, serialisers) is
+    NOT modelled here: its stages are [Section] variables.  What is modelled is
+    everything that could let one call influence another:
+
+    - the caller's namespaces dictionary is an OBJECT the caller may hand to
+      several constructors; [Shaper.__init__] now takes a PRIVATE COPY
+      ([dict(namespaces_dict)]) and writes the shapes namespace into the copy
+      ([_add_shapes_namespaces_to_namespaces_dict]); the rdflib readers write the
+      parsed graph's prefixes into the copy during the first tracker / profiler
+      pass; [ShaclSerializer.__init__] copies again before
+      [_add_shacl_namespace] writes the SHACL namespace.  The caller's objects are
+      never written: they are kept in [cdicts] only to give [DShared] a meaning;
     - the memo slots of a Shaper: [_target_classes_dict], [_profile] (together
-      with [_class_counts], [_class_min_iris]), [_shape_list].  ([_instance_tracker],
-      [_class_profiler], [_class_shexer] are built immediately before their only
-      use and hold the same references: no observable state of their own.)
-      [shex_graph] fills each slot only when it is [None]: the threshold of the
-      first call is baked into [_shape_list];
-    - [ShexSerializer._add_statement_examples] appends a comment to the statement
-      OBJECTS of the memoised shapes on every ShExC serialisation when
-      examples_mode is in [c18_examples_modes_mutating];
+      with [_class_counts], [_class_min_iris]), [_shape_list] together with
+      [_shape_list_threshold]: the shapes are recomputed (by a new ClassShexer)
+      whenever the threshold of the call differs from the memoised one;
+    - [ShexSerializer._add_statement_examples] appends the example comment to the
+      statement OBJECTS of the memoised shapes unless it is already there
+      ([if comment not in a_statement.comments]); the comment text depends on the
+      Shaper's dictionary, which no longer changes once the shapes exist, so the
+      annotation happens once per computed shape list: the flag [annotated];
     - the ShExC sink: [_write_line] buffers lines and flushes every
       [c_flush_size] lines into a string or a file; [_flush] writes the rest.
 
@@ -110,8 +113,14 @@ Inductive outcome :=
 | ONew                  (* constructor returned *)
 | OText (s : str)       (* string_output=True: the returned text *)
 | OFile (s : str)       (* output_file=...: returns None; the content of the written file *)
-| OErr                  (* no such Shaper (caller error) / unreachable slot state *)
+| OErr                  (* no such Shaper / dictionary (caller error) / unreachable slot state *)
 | OHang.                (* the random-prefix loop of the constructor did not terminate *)
+
+(** how the caller supplies namespaces_dict *)
+Inductive dict_arg :=
+| DNone                 (* namespaces_dict=None -> a new {} *)
+| DNew (d : nsd)        (* a dictionary object no Shaper has seen *)
+| DShared (i : nat).    (* the very object (the i-th the caller created) handed to an earlier Shaper *)
 
 Section Api.
   (** the pipeline, abstract *)
@@ -122,30 +131,27 @@ Section Api.
   Variable st_reader_ns : args -> nsd -> nsd.      (* what a reader pass leaves in the dict (rdflib readers add prefixes) *)
   Variable st_profile : args -> nsd -> tcd -> prof.
   Variable st_shex : args -> nsd -> prof -> thr -> shapes.   (* ClassShexer.shex_classes(threshold) *)
-  Variable st_add_examples : args -> nsd -> shapes -> shapes. (* in-place mutation of the statements *)
+  Variable st_add_examples : args -> nsd -> shapes -> shapes. (* in-place annotation of the statements *)
   Variable st_shexc_lines : args -> nsd -> shapes -> list str.
   Variable st_shacl_text : args -> nsd -> shapes -> str.
   Variable st_profile_text : prof -> str.
   (** nondeterminism of [find_adequate_prefix_for_shapes_namespaces] *)
   Variable rand : nat -> str.
   Variable fuel : nat.
+  Variable thr_eqb : thr -> thr -> bool.           (* [self._shape_list_threshold != acceptance_threshold] *)
+
+  Record memo := mkMemo { m_thr : thr; m_shapes : shapes; m_annotated : bool }.
 
   Record shaper := mkShaper {
     sh_args : args;
-    sh_ns : nat;                    (* which dictionary object self._namespaces_dict is *)
+    sh_dict : nsd;                  (* self._namespaces_dict: the private copy *)
     sh_tcd : option tcd;            (* self._target_classes_dict *)
     sh_prof : option prof;          (* self._profile, _class_counts, _class_min_iris *)
-    sh_shapes : option shapes       (* self._shape_list *)
+    sh_shapes : option memo         (* self._shape_list, self._shape_list_threshold *)
   }.
 
-  Record state := mkState { store : list nsd; shapers : list shaper; dead : bool }.
+  Record state := mkState { cdicts : list nsd; shapers : list shaper; dead : bool }.
   Definition init : state := mkState [] [] false.
-
-  (** how the caller supplies namespaces_dict *)
-  Inductive dict_arg :=
-  | DNone                 (* namespaces_dict=None -> a new {} *)
-  | DNew (d : nsd)        (* a dictionary object no Shaper has seen *)
-  | DShared (i : nat).    (* the very object store[i] handed to an earlier Shaper *)
 
   Inductive op :=
   | New (a : args) (d : dict_arg)
@@ -154,7 +160,7 @@ Section Api.
 
   Definition mutating (a : args) : bool := mem_opt_str (a_examples a) c18_examples_modes_mutating.
 
-  (** [_add_shapes_namespaces_to_namespaces_dict] *)
+  (** [_add_shapes_namespaces_to_namespaces_dict] (on the private copy) *)
   Definition ctor_dict (a : args) (d : nsd) : option nsd :=
     match find_prefix rand fuel d with
     | Some p => Some (dset d (a_shapes_ns a) p)
@@ -162,43 +168,49 @@ Section Api.
     end.
 
   Definition do_new (st : state) (a : args) (da : dict_arg) : state * outcome :=
-    let '(sto, idx) := match da with
-                       | DNone => (store st ++ [[]], List.length (store st))
-                       | DNew d => (store st ++ [d], List.length (store st))
-                       | DShared i => (store st, i)
-                       end in
-    match nth_error sto idx with
+    let '(cds, od) := match da with
+                      | DNone => (cdicts st ++ [[]], Some [])
+                      | DNew d => (cdicts st ++ [d], Some d)
+                      | DShared i => (cdicts st, nth_error (cdicts st) i)
+                      end in
+    match od with
     | None => (st, OErr)
     | Some d =>
       match ctor_dict a d with
-      | None => (mkState (store st) (shapers st) true, OHang)
-      | Some d' => (mkState (set_nth idx d' sto) (shapers st ++ [mkShaper a idx None None None]) false, ONew)
+      | None => (mkState (cdicts st) (shapers st) true, OHang)
+      | Some d' => (mkState cds (shapers st ++ [mkShaper a d' None None None]) false, ONew)
       end
     end.
 
   (** [if self._target_classes_dict is None: self._launch_instance_tracker()] *)
-  Definition ensure_tcd (s : shaper) (d : nsd) : shaper * nsd :=
+  Definition ensure_tcd (s : shaper) : shaper :=
     match sh_tcd s with
-    | Some _ => (s, d)
-    | None => (mkShaper (sh_args s) (sh_ns s) (Some (st_track (sh_args s) d)) (sh_prof s) (sh_shapes s),
-               st_reader_ns (sh_args s) d)
+    | Some _ => s
+    | None => mkShaper (sh_args s) (st_reader_ns (sh_args s) (sh_dict s))
+                       (Some (st_track (sh_args s) (sh_dict s))) (sh_prof s) (sh_shapes s)
     end.
 
   (** [if self._profile is None: self._launch_class_profiler()] *)
-  Definition ensure_prof (s : shaper) (d : nsd) : shaper * nsd :=
+  Definition ensure_prof (s : shaper) : shaper :=
     match sh_prof s, sh_tcd s with
-    | Some _, _ => (s, d)
-    | None, Some t => (mkShaper (sh_args s) (sh_ns s) (sh_tcd s) (Some (st_profile (sh_args s) d t)) (sh_shapes s),
-                       st_reader_ns (sh_args s) d)
-    | None, None => (s, d)
+    | Some _, _ => s
+    | None, Some t => mkShaper (sh_args s) (st_reader_ns (sh_args s) (sh_dict s)) (sh_tcd s)
+                               (Some (st_profile (sh_args s) (sh_dict s) t)) (sh_shapes s)
+    | None, None => s
     end.
 
-  (** [if self._shape_list is None: self._launch_class_shexer(acceptance_threshold)] *)
-  Definition ensure_shapes (s : shaper) (d : nsd) (t : thr) : shaper :=
-    match sh_shapes s, sh_prof s with
-    | Some _, _ => s
-    | None, Some p => mkShaper (sh_args s) (sh_ns s) (sh_tcd s) (sh_prof s) (Some (st_shex (sh_args s) d p t))
-    | None, None => s
+  (** [if self._shape_list is None or self._shape_list_threshold != acceptance_threshold:
+          self._launch_class_shexer(acceptance_threshold)]   (a new ClassShexer every time) *)
+  Definition ensure_shapes (s : shaper) (t : thr) : shaper :=
+    let fresh :=
+        match sh_prof s with
+        | Some p => mkShaper (sh_args s) (sh_dict s) (sh_tcd s) (sh_prof s)
+                             (Some (mkMemo t (st_shex (sh_args s) (sh_dict s) p t) false))
+        | None => s
+        end in
+    match sh_shapes s with
+    | Some m => if thr_eqb (m_thr m) t then s else fresh
+    | None => fresh
     end.
 
   Definition emit_lines (k : sink_kind) (lines : list str) : outcome :=
@@ -210,50 +222,44 @@ Section Api.
   Definition emit_text (k : sink_kind) (t : str) : outcome :=
     match k with SString => OText t | SFile => OFile t end.
 
-  Definition shex_on (s : shaper) (d : nsd) (f : fmt) (k : sink_kind) (t : thr) : shaper * nsd * outcome :=
-    let '(s1, d1) := ensure_tcd s d in
-    let '(s2, d2) := ensure_prof s1 d1 in
-    let s3 := ensure_shapes s2 d2 t in
+  Definition shex_on (s : shaper) (f : fmt) (k : sink_kind) (t : thr) : shaper * outcome :=
+    let s3 := ensure_shapes (ensure_prof (ensure_tcd s)) t in
     match sh_shapes s3 with
-    | None => (s3, d2, OErr)
-    | Some shp =>
+    | None => (s3, OErr)
+    | Some m =>
       match f with
       | ShExC =>
-        let shp' := if mutating (sh_args s) then st_add_examples (sh_args s) d2 shp else shp in
-        (mkShaper (sh_args s3) (sh_ns s3) (sh_tcd s3) (sh_prof s3) (Some shp'), d2,
-         emit_lines k (st_shexc_lines (sh_args s) d2 shp'))
+        (** [_add_statement_examples]: annotate unless the comment is already there *)
+        let m' := if mutating (sh_args s) && negb (m_annotated m)
+                  then mkMemo (m_thr m) (st_add_examples (sh_args s) (sh_dict s3) (m_shapes m)) true
+                  else m in
+        (mkShaper (sh_args s3) (sh_dict s3) (sh_tcd s3) (sh_prof s3) (Some m'),
+         emit_lines k (st_shexc_lines (sh_args s) (sh_dict s3) (m_shapes m')))
       | SHACL =>
-        let d3 := add_shacl d2 in
-        (s3, d3, emit_text k (st_shacl_text (sh_args s) d3 shp))
+        (** the serialiser's own copy of the dictionary receives the SHACL namespace *)
+        (s3, emit_text k (st_shacl_text (sh_args s) (add_shacl (sh_dict s3)) (m_shapes m)))
       end
     end.
 
-  Definition profile_on (s : shaper) (d : nsd) (k : sink_kind) : shaper * nsd * outcome :=
-    let '(s1, d1) := ensure_tcd s d in
-    let '(s2, d2) := ensure_prof s1 d1 in
+  Definition profile_on (s : shaper) (k : sink_kind) : shaper * outcome :=
+    let s2 := ensure_prof (ensure_tcd s) in
     match sh_prof s2 with
-    | None => (s2, d2, OErr)
-    | Some p => (s2, d2, emit_text k (st_profile_text p))
+    | None => (s2, OErr)
+    | Some p => (s2, emit_text k (st_profile_text p))
     end.
 
-  Definition on_shaper (st : state) (i : nat) (g : shaper -> nsd -> shaper * nsd * outcome) : state * outcome :=
+  Definition on_shaper (st : state) (i : nat) (g : shaper -> shaper * outcome) : state * outcome :=
     match nth_error (shapers st) i with
     | None => (st, OErr)
-    | Some s =>
-      match nth_error (store st) (sh_ns s) with
-      | None => (st, OErr)
-      | Some d =>
-        let '(s', d', o) := g s d in
-        (mkState (set_nth (sh_ns s) d' (store st)) (set_nth i s' (shapers st)) false, o)
-      end
+    | Some s => let '(s', o) := g s in (mkState (cdicts st) (set_nth i s' (shapers st)) false, o)
     end.
 
   Definition step (st : state) (o : op) : state * outcome :=
     if dead st then (st, OHang)
     else match o with
          | New a da => do_new st a da
-         | Shex i f k t => on_shaper st i (fun s d => shex_on s d f k t)
-         | Profile i k => on_shaper st i (fun s d => profile_on s d k)
+         | Shex i f k t => on_shaper st i (fun s => shex_on s f k t)
+         | Profile i k => on_shaper st i (fun s => profile_on s k)
          end.
 
   Fixpoint run_from (st : state) (h : list op) : list outcome * state :=
@@ -264,83 +270,47 @@ Section Api.
     end.
 
   Definition run (h : list op) : list outcome := fst (run_from init h).
-  Definition final_store (h : list op) : list nsd := store (snd (run_from init h)).
+  (** the caller's dictionary objects after the history (never written) *)
+  Definition final_store (h : list op) : list nsd := cdicts (snd (run_from init h)).
 
-  (** ** The domain of histories on which the code as it is answers every call
-      with [pure] of that call's own arguments (hypothesis of
-      [C18_history_partial]).  Derived from the state machine above:
-      - (D0) every call names an existing Shaper;
-      - (D1) no dictionary object is handed to two constructors ([DShared]), and
-             the constructor does not need the random prefix ([prio_free]);
-      - (D2) every [shex_graph] call on one Shaper has the threshold of the
-             first one ([_shape_list] is computed once);
-      - (D3) no ShExC call after a SHACL call on the same Shaper (the SHACL
-             serialiser leaves its namespace in the dictionary);
-      - (D4) with a mutating examples_mode, at most one ShExC call per Shaper
-             (the example comments are appended to the memoised statements). *)
-  Variable thr_eqb : thr -> thr -> bool.
-
-  Record track := mkTrack {
-    tr_thr : option thr;     (* threshold of the first shex_graph call *)
-    tr_shacl : bool;         (* a SHACL call has been made *)
-    tr_shexc : nat;          (* number of ShExC calls made *)
-    tr_mut : bool            (* examples_mode mutates the statements *)
-  }.
-
-  Definition dict_arg_ok (da : dict_arg) : bool :=
-    match da with
-    | DNone => prio_free []
-    | DNew d => prio_free d
-    | DShared _ => false
-    end.
-
-  Definition call_ok (tr : track) (f : fmt) (t : thr) : bool :=
-    match tr_thr tr with None => true | Some t0 => thr_eqb t0 t end &&
-    match f with
-    | ShExC => negb (tr_shacl tr) && (negb (tr_mut tr) || Nat.eqb (tr_shexc tr) 0)
-    | SHACL => true
-    end.
-
-  Definition track_call (tr : track) (f : fmt) (t : thr) : track :=
-    mkTrack (match tr_thr tr with None => Some t | Some t0 => Some t0 end)
-            (match f with SHACL => true | ShExC => tr_shacl tr end)
-            (match f with ShExC => S (tr_shexc tr) | SHACL => tr_shexc tr end)
-            (tr_mut tr).
-
-  Fixpoint dom_from (trs : list track) (h : list op) : bool :=
+  (** ** Well-formed histories (the property's whole domain, hypothesis of [C18_pure]):
+      every call names an existing Shaper, every [DShared] an existing
+      dictionary, and no constructor needs the random prefix (the property
+      excludes "all four default prefixes taken"; with them taken the result is
+      the oracle's, and the loop may not terminate). *)
+  Fixpoint wf_from (ds : list nsd) (n : nat) (h : list op) : bool :=
     match h with
     | [] => true
-    | New a da :: h' => dict_arg_ok da && dom_from (trs ++ [mkTrack None false 0 (mutating a)]) h'
-    | Shex i f k t :: h' =>
-      match nth_error trs i with
-      | None => false
-      | Some tr => call_ok tr f t && dom_from (set_nth i (track_call tr f t) trs) h'
+    | New a da :: h' =>
+      match da with
+      | DNone => prio_free [] && wf_from (ds ++ [[]]) (S n) h'
+      | DNew d => prio_free d && wf_from (ds ++ [d]) (S n) h'
+      | DShared i => match nth_error ds i with
+                     | Some d => prio_free d && wf_from ds (S n) h'
+                     | None => false
+                     end
       end
-    | Profile i k :: h' =>
-      match nth_error trs i with
-      | None => false
-      | Some _ => dom_from trs h'
-      end
+    | Shex i _ _ _ :: h' => Nat.ltb i n && wf_from ds n h'
+    | Profile i _ :: h' => Nat.ltb i n && wf_from ds n h'
     end.
 
-  Definition C18_dom (h : list op) : bool := dom_from [] h.
+  Definition C18_dom (h : list op) : bool := wf_from [] 0 h.
 End Api.
 
-Arguments mkShaper {args tcd prof shapes}.
-Arguments mkState {args tcd prof shapes}.
+Arguments mkShaper {args tcd prof shapes thr}.
+Arguments mkState {args tcd prof shapes thr}.
+Arguments mkMemo {shapes thr}.
 Arguments New {args thr}.
 Arguments Shex {args thr}.
 Arguments Profile {args thr}.
-Arguments sh_args {args tcd prof shapes}.
-Arguments sh_ns {args tcd prof shapes}.
-Arguments sh_tcd {args tcd prof shapes}.
-Arguments sh_prof {args tcd prof shapes}.
-Arguments sh_shapes {args tcd prof shapes}.
-Arguments store {args tcd prof shapes}.
-Arguments shapers {args tcd prof shapes}.
-Arguments dead {args tcd prof shapes}.
-Arguments mkTrack {thr}.
-Arguments tr_thr {thr}.
-Arguments tr_shacl {thr}.
-Arguments tr_shexc {thr}.
-Arguments tr_mut {thr}.
+Arguments sh_args {args tcd prof shapes thr}.
+Arguments sh_dict {args tcd prof shapes thr}.
+Arguments sh_tcd {args tcd prof shapes thr}.
+Arguments sh_prof {args tcd prof shapes thr}.
+Arguments sh_shapes {args tcd prof shapes thr}.
+Arguments cdicts {args tcd prof shapes thr}.
+Arguments shapers {args tcd prof shapes thr}.
+Arguments dead {args tcd prof shapes thr}.
+Arguments m_thr {shapes thr}.
+Arguments m_shapes {shapes thr}.
+Arguments m_annotated {shapes thr}.
